@@ -171,6 +171,15 @@ func (e *Explore) Run(ctx context.Context, con int) error {
 					}
 					tar := temp
 					hash := tar.target.Hash
+					// the target may have left discovery while it waited in the queue (and may be back as a new
+					// object that is explored on its own): don't probe what is no longer tracked
+					e.targetsLock.Lock()
+					tracked := e.targets[hash] == tar
+					e.targetsLock.Unlock()
+					if !tracked {
+						continue
+					}
+
 					err := e.exploreOnce(ctx, tar)
 					if err != nil {
 						go func() {
